@@ -233,6 +233,17 @@ Definition DInv (st : state) (Y : list Z) : Prop := DInvC (heap st) (timers st) 
 Definition gonec (h : heap_t) (n s : Z) : Prop := s <= n /\ forall a o, hget a h = Some o -> o_seq o <> s.
 Definition gone (st : state) (s : Z) : Prop := gonec (heap st) (next_seq st) s.
 
+Lemma DInvC_perm : forall h ts Y Y', Permutation Y Y' -> DInvC h ts Y -> DInvC h ts Y'.
+Proof.
+  intros h ts Y Y' P [N D]. split; [eapply Permutation_NoDup; eauto|].
+  intros a Ha. apply D. eapply Permutation_in; [apply Permutation_sym|]; eauto.
+Qed.
+Lemma DInvC_sub : forall h ts ts' Y, DInvC h ts Y -> (forall k, In k ts' -> In k ts) -> DInvC h ts' Y.
+Proof.
+  intros h ts ts' Y [N D] Sub. split; auto. intros a Ha. destruct (D _ Ha) as [G ND]. split; auto.
+  intros d Hd. eapply ND; eauto.
+Qed.
+
 Lemma inv_init : forall c, Inv (init c).
 Proof.
   intros c. constructor; cbn; try (constructor; fail); try reflexivity; try lia; intros; try contradiction; discriminate.
@@ -425,9 +436,22 @@ Qed.
 
 (* ------------------------------------------------------------------ pending adds *)
 Fixpoint padds (l : list pfun) : list Z :=
-  match l with [] => [] | PAdd a :: r => a :: padds r | PCancel _ _ :: r => padds r end.
+  match l with [] => [] | PAdd a :: r => a :: padds r | PCancel _ _ :: r => padds r | PUser _ :: r => padds r end.
 Lemma padds_app : forall l1 l2, padds (l1 ++ l2) = padds l1 ++ padds l2.
-Proof. induction l1 as [|[a|a s] r IH]; intros; cbn [padds app]; rewrite ?IH; auto. Qed.
+Proof. induction l1 as [|[a|a s|cs] r IH]; intros; cbn [padds app]; rewrite ?IH; auto. Qed.
+(* the Timer objects that are alive but in neither set: queued adds, and adds still in flight *)
+Definition detq (st : state) : list Z := padds (pending st) ++ inflight st.
+Lemma zmem_iff : forall a l, zmem a l = true <-> In a l.
+Proof.
+  intros a l. induction l as [|b r IH]; cbn [zmem In]; [split; [discriminate|tauto]|].
+  rewrite orb_true_iff, Z.eqb_eq, IH. intuition congruence.
+Qed.
+Lemma zremove_perm : forall a l, In a l -> Permutation l (a :: zremove a l).
+Proof.
+  intros a l. induction l as [|b r IH]; intros H; [contradiction|]. cbn [zremove].
+  destruct (Z.eqb_spec a b) as [->|N]; [apply Permutation_refl|].
+  destruct H as [E|H]; [congruence|]. eapply Permutation_trans; [apply perm_skip; apply IH; auto|]. apply perm_swap.
+Qed.
 Lemma NoDup_snoc : forall (l : list Z) a, NoDup l -> ~ In a l -> NoDup (l ++ [a]).
 Proof.
   induction l as [|x l IH]; intros a N I; cbn [app].
@@ -453,7 +477,8 @@ Proof.
 Qed.
 
 Definition frame (st st' : state) : Prop :=
-  calling st' = calling st /\ pending st' = pending st /\ next_seq st' = next_seq st /\ clk st' = clk st.
+  calling st' = calling st /\ pending st' = pending st /\ next_seq st' = next_seq st /\ clk st' = clk st /\
+  inflight st' = inflight st.
 
 Lemma add_in_loop_good : forall st a o Y, Inv st -> hget a (heap st) = Some o ->
   (forall d, ~ In (d, a) (timers st)) -> 0 < o_exp o -> DInv st Y -> ~ In a Y ->
@@ -503,7 +528,7 @@ Lemma alloc_ok : forall st w iv a st' s Y, Inv st -> DInv st Y -> alloc st w iv 
   Inv st' /\ hget a (heap st') = Some (mkT s w iv) /\ (forall d, ~ In (d, a) (timers st')) /\ 0 < w /\
   DInv st' Y /\ ~ In a Y /\ timers st' = timers st /\ armed st' = armed st /\ arm_at st' = arm_at st /\
   calling st' = calling st /\ pending st' = pending st /\ s = next_seq st + 1 /\ next_seq st' = s /\ clk st' = clk st /\
-  canceling st' = canceling st /\ hget a (heap st) = None.
+  canceling st' = canceling st /\ hget a (heap st) = None /\ inflight st' = inflight st.
 Proof.
   intros st w iv a st' s Y I [NY DY] H. unfold alloc in H.
   destruct (0 <? a) eqn:E1; [|discriminate]. destruct (a <? PTR_MAX) eqn:E2; [|discriminate].
@@ -522,33 +547,54 @@ Lemma alloc_nofault : forall st w iv a, alloc st w iv a <> Fault.
 Proof. intros. unfold alloc. destruct (_ && _); discriminate. Qed.
 
 Definition cbpost (X : list Z) (st : state) (r : state * list event) : Prop :=
-  Inv (fst r) /\ DInv (fst r) (X ++ padds (pending (fst r))) /\ (armed_ok st -> armed_ok (fst r)) /\
+  Inv (fst r) /\ DInv (fst r) (X ++ detq (fst r)) /\ (armed_ok st -> armed_ok (fst r)) /\
   calling (fst r) = calling st.
 
-Lemma cb_step_good : forall st c X, Inv st -> DInv st (X ++ padds (pending st)) ->
+Lemma cb_step_good : forall st c X, Inv st -> DInv st (X ++ detq st) ->
   good (cb_step st c) (cbpost X st).
 Proof.
-  intros st c X I D. unfold cbpost. destruct c as [d|w iv a|a s|w iv a|a s]; cbn [cb_step].
+  intros st c X I D. unfold cbpost. destruct c as [d|w iv a|a s|w iv a|a s|w iv a|a|cs]; cbn [cb_step].
   - destruct (d <? 0); cbn; auto; splits; auto.
   - destruct (alloc st w iv a) as [[st1 s]| |] eqn:EA; cbn [bind good]; auto; [|eapply alloc_nofault; eauto].
-    destruct (alloc_ok _ _ _ _ _ _ _ I D EA) as (I1 & G1 & ND1 & Pw & D1 & NI & ET & EAr & EAt & EC & EP & Es & _).
+    destruct (alloc_ok _ _ _ _ _ _ _ I D EA) as (I1 & G1 & ND1 & Pw & D1 & NI & ET & EAr & EAt & EC & EP & Es & _ & _ & _ & _ & EI).
     pose proof (add_in_loop_good st1 a _ _ I1 G1 ND1 Pw D1 NI) as GA.
     destruct (add_in_loop st1 a) as [[st2 ev]| |]; cbn [bind good] in *; auto.
-    destruct GA as (I2 & D2 & A2 & (F1 & F2 & F3) & _). cbn [fst] in *. splits; auto.
-    + rewrite F2, EP; auto.
+    destruct GA as (I2 & D2 & A2 & (F1 & F2 & F3 & F4 & F5) & _). cbn [fst] in *. splits; auto.
+    + unfold detq in *. rewrite F2, F5, EP, EI; auto.
     + intros A. apply A2. unfold armed_ok in *. rewrite ET, EAr, EAt. auto.
     + congruence.
   - pose proof (cancel_good st a s _ I D) as GC.
     destruct (cancel_in_loop st a s) as [st1| |]; cbn [bind good] in *; auto.
-    destruct GC as (I1 & D1 & A1 & (F1 & F2 & F3)). cbn [fst]. splits; auto. rewrite F2; auto.
+    destruct GC as (I1 & D1 & A1 & (F1 & F2 & F3 & F4 & F5)). cbn [fst]. splits; auto. unfold detq in *. rewrite F2, F5; auto.
   - destruct (alloc st w iv a) as [[st1 s]| |] eqn:EA; cbn [bind good]; auto; [|eapply alloc_nofault; eauto].
-    destruct (alloc_ok _ _ _ _ _ _ _ I D EA) as (I1 & G1 & ND1 & Pw & D1 & NI & ET & EAr & EAt & EC & EP & Es & _).
+    destruct (alloc_ok _ _ _ _ _ _ _ I D EA) as (I1 & G1 & ND1 & Pw & D1 & NI & ET & EAr & EAt & EC & EP & Es & _ & _ & _ & _ & EI).
     cbn. splits; auto.
-    + rewrite padds_app. cbn [padds]. rewrite app_assoc, EP. destruct D1 as [N1 Dt1]. split.
+    + unfold detq in *. cbn [pending inflight set_pending]. rewrite EP, EI.
+      apply DInvC_perm with (Y := (X ++ padds (pending st) ++ inflight st) ++ [a]).
+      * rewrite padds_app. cbn [padds]. rewrite <- !app_assoc. apply Permutation_app_head. apply Permutation_app_head.
+        apply Permutation_app_comm.
+      * destruct D1 as [N1 Dt1]. split.
+        -- apply NoDup_snoc; auto.
+        -- intros b Hb. apply in_app_iff in Hb as [Hb|[<-|[]]]; auto. split; auto. eexists; split; eauto.
+    + unfold armed_ok in *. cbn. rewrite ET, EAr, EAt. auto.
+  - cbn. splits; auto. unfold detq in *. cbn [pending inflight set_pending]. rewrite padds_app. cbn [padds]. rewrite app_nil_r. auto.
+  - (* CFNew: new Timer by a foreign thread, not yet handed off *)
+    destruct (alloc st w iv a) as [[st1 s]| |] eqn:EA; cbn [bind good]; auto; [|eapply alloc_nofault; eauto].
+    destruct (alloc_ok _ _ _ _ _ _ _ I D EA) as (I1 & G1 & ND1 & Pw & D1 & NI & ET & EAr & EAt & EC & EP & Es & _ & _ & _ & _ & EI).
+    cbn. splits; auto.
+    + unfold detq in *. cbn [pending inflight set_inflight]. rewrite EP, EI.
+      replace (X ++ padds (pending st) ++ inflight st ++ [a]) with ((X ++ padds (pending st) ++ inflight st) ++ [a])
+        by (rewrite <- !app_assoc; reflexivity).
+      destruct D1 as [N1 Dt1]. split.
       * apply NoDup_snoc; auto.
       * intros b Hb. apply in_app_iff in Hb as [Hb|[<-|[]]]; auto. split; auto. eexists; split; eauto.
     + unfold armed_ok in *. cbn. rewrite ET, EAr, EAt. auto.
-  - cbn. splits; auto. rewrite padds_app. cbn [padds]. rewrite app_nil_r. auto.
+  - (* CFEnq: the hand-off *)
+    destruct (zmem a (inflight st)) eqn:ZM; cbn [good]; auto. apply zmem_iff in ZM.
+    cbn. splits; auto. unfold detq in *. cbn [pending inflight set_pending set_inflight].
+    eapply DInvC_perm; [|exact D]. apply Permutation_app_head. rewrite padds_app. cbn [padds]. rewrite <- app_assoc.
+    apply Permutation_app_head. cbn [app]. apply zremove_perm; auto.
+  - cbn. splits; auto. unfold detq in *. cbn [pending inflight set_pending]. rewrite padds_app. cbn [padds]. rewrite app_nil_r. auto.
 Qed.
 
 Lemma cbpost_trans : forall X st st1 e1 r, cbpost X st (st1, e1) -> cbpost X st1 r -> forall e, cbpost X st (fst r, e).
@@ -557,7 +603,7 @@ Proof.
   splits; auto. congruence.
 Qed.
 
-Lemma cb_run_good : forall cs st X, Inv st -> DInv st (X ++ padds (pending st)) ->
+Lemma cb_run_good : forall cs st X, Inv st -> DInv st (X ++ detq st) ->
   good (cb_run st cs) (cbpost X st).
 Proof.
   induction cs as [|c r IH]; intros st X I D; cbn [cb_run].
@@ -572,17 +618,6 @@ Proof.
 Qed.
 
 (* ------------------------------------------------------------------ handleRead *)
-Lemma DInvC_perm : forall h ts Y Y', Permutation Y Y' -> DInvC h ts Y -> DInvC h ts Y'.
-Proof.
-  intros h ts Y Y' P [N D]. split; [eapply Permutation_NoDup; eauto|].
-  intros a Ha. apply D. eapply Permutation_in; [apply Permutation_sym|]; eauto.
-Qed.
-Lemma DInvC_sub : forall h ts ts' Y, DInvC h ts Y -> (forall k, In k ts' -> In k ts) -> DInvC h ts' Y.
-Proof.
-  intros h ts ts' Y [N D] Sub. split; auto. intros a Ha. destruct (D _ Ha) as [G ND]. split; auto.
-  intros d Hd. eapply ND; eauto.
-Qed.
-
 Lemma unactivate_good : forall ex st rest act n P, InvC (heap st) (ex ++ rest) act n ->
   DInvC (heap st) (ex ++ rest) P ->
   good (unactivate st ex act) (fun act' => InvC (heap st) rest act' n /\ DInvC (heap st) rest (P ++ map snd ex)).
@@ -602,14 +637,14 @@ Proof.
     cbn [map snd]. rewrite <- app_assoc in D2. exact D2.
 Qed.
 
-Lemma run_cbs_good : forall ex st script now X, Inv st -> DInv st (X ++ padds (pending st)) ->
+Lemma run_cbs_good : forall ex st script now X, Inv st -> DInv st (X ++ detq st) ->
   incl (map snd ex) X ->
-  good (run_cbs st ex script now) (fun r => Inv (fst r) /\ DInv (fst r) (X ++ padds (pending (fst r))) /\
+  good (run_cbs st ex script now) (fun r => Inv (fst r) /\ DInv (fst r) (X ++ detq (fst r)) /\
                                             calling (fst r) = calling st).
 Proof.
   induction ex as [|[d a] ex IH]; intros st script now X I D Sub; cbn [run_cbs].
   - cbn. auto.
-  - assert (Ha : In a (X ++ padds (pending st))) by (apply in_or_app; left; apply Sub; left; auto).
+  - assert (Ha : In a (X ++ detq st)) by (apply in_or_app; left; apply Sub; left; auto).
     destruct D as [N Dt]. destruct (Dt _ Ha) as [[o [G _]] _].
     unfold deref. rewrite G. cbn [bind].
     pose proof (cb_run_good (hd [] script) st X I (conj N Dt)) as G1.
@@ -621,9 +656,9 @@ Proof.
     destruct IH as (I2 & D2 & C2). cbn [fst] in *. splits; auto. congruence.
 Qed.
 
-Lemma frame_refl : forall st, frame st st. Proof. intros; unfold frame; auto. Qed.
+Lemma frame_refl : forall st, frame st st. Proof. intros; unfold frame; auto 10. Qed.
 Lemma frame_trans : forall a b c, frame a b -> frame b c -> frame a c.
-Proof. unfold frame. intros a b c (A1 & A2 & A3 & A4) (B1 & B2 & B3 & B4). splits; congruence. Qed.
+Proof. unfold frame. intros a b c (A1 & A2 & A3 & A4 & A5) (B1 & B2 & B3 & B4 & B5). splits; congruence. Qed.
 
 Lemma reset_loop_good : forall ex st now P, Inv st -> DInv st (map snd ex ++ P) -> (ex <> [] -> 0 < now) ->
   good (reset_loop st ex now) (fun st' => Inv st' /\ DInv st' P /\ frame st st').
@@ -660,7 +695,7 @@ Proof.
 Qed.
 
 Definition Top (st : state) : Prop :=
-  Inv st /\ DInv st (padds (pending st)) /\ calling st = false /\ armed_ok st.
+  Inv st /\ DInv st (detq st) /\ calling st = false /\ armed_ok st.
 
 Lemma Top_init : forall c, Top (init c).
 Proof.
@@ -670,7 +705,7 @@ Qed.
 
 Lemma consume_same : forall st, heap (consume st) = heap st /\ timers (consume st) = timers st /\
   active (consume st) = active st /\ next_seq (consume st) = next_seq st /\ pending (consume st) = pending st /\
-  clk (consume st) = clk st.
+  clk (consume st) = clk st /\ inflight (consume st) = inflight st.
 Proof. intros st. unfold consume. destruct (armed st) as [a|]; [destruct (a <=? clk st)|]; cbn; auto 10. Qed.
 
 Lemma ksplit_le : forall now ex, Forall (fun y => klt y (now, PTR_MAX) = true) ex -> forall d a, In (d, a) ex -> d <= now.
@@ -682,7 +717,7 @@ Lemma fire_good : forall st script, Top st ->
   good (fire st script) (fun r => Top (fst r)).
 Proof.
   intros st script (I & D & C & _). unfold fire.
-  destruct (consume_same st) as (Eh & Et & Ea & En & Ep & Ec).
+  destruct (consume_same st) as (Eh & Et & Ea & En & Ep & Ec & Ei).
   set (st0 := consume st) in *.
   assert (I0 : Inv st0) by (unfold Inv; rewrite Eh, Et, Ea, En; auto).
   rewrite (sizes_agree_inv _ I0). cbn [assert bind].
@@ -693,7 +728,7 @@ Proof.
     destruct (i_ta _ _ _ _ I0 d a0) as (o & G & _); [rewrite Eapp; apply in_or_app; right; left; auto|].
     apply (i_hp _ _ _ _ I0) in G. apply Z.ltb_lt. lia. }
   rewrite A1. cbn [assert bind].
-  assert (D0 : DInvC (heap st0) (ex ++ rest) (padds (pending st))).
+  assert (D0 : DInvC (heap st0) (ex ++ rest) (detq st)).
   { rewrite <- Eapp. unfold DInv in D. rewrite Eh, Et. exact D. }
   unfold Inv in I0. rewrite Eapp in I0.
   pose proof (unactivate_good ex st0 rest (active st0) (next_seq st0) _ I0 D0) as GU.
@@ -704,8 +739,8 @@ Proof.
   rewrite (sizes_agree_inv _ I2). cbn [assert bind].
   set (st3 := set_canceling (set_calling st2 true) []).
   assert (I3 : Inv st3) by exact I1.
-  assert (D3 : DInv st3 (map snd ex ++ padds (pending st3))).
-  { unfold DInv. cbn. rewrite Ep. eapply DInvC_perm; [apply Permutation_app_comm|]. exact D1. }
+  assert (D3 : DInv st3 (map snd ex ++ detq st3)).
+  { unfold DInv, detq. cbn. rewrite Ep, Ei. fold (detq st). eapply DInvC_perm; [apply Permutation_app_comm|]. exact D1. }
   pose proof (run_cbs_good ex st3 script (clk st) (map snd ex) I3 D3 (incl_refl _)) as GR.
   destruct (run_cbs st3 ex script (clk st)) as [[st4 evs]| |]; cbn [bind good] in *; auto.
   destruct GR as (I4 & D4 & C4). cbn [fst] in *.
@@ -714,41 +749,52 @@ Proof.
   { destruct ex as [|[d a] ex']; [congruence|]. intros _.
     assert (0 < d) by (eapply (i_pos _ _ _ _ I0); left; eauto).
     pose proof (ksplit_le _ _ Fex d a (or_introl eq_refl)). lia. }
-  pose proof (reset_loop_good ex st5 (clk st) (padds (pending st4)) I4 D4 Pn) as GL.
+  pose proof (reset_loop_good ex st5 (clk st) (detq st4) I4 D4 Pn) as GL.
   destruct (reset_loop st5 ex (clk st)) as [st6| |]; cbn [bind good] in *; auto.
-  destruct GL as (I6 & D6 & (F1 & F2 & F3 & F4)). cbn in F1, F2.
+  destruct GL as (I6 & D6 & (F1 & F2 & F3 & F4 & F5)). cbn in F1, F2, F5.
+  assert (D6' : DInv st6 (detq st6)) by (unfold detq in *; rewrite F2, F5; exact D6).
   destruct (timers st6) as [|[d a] r] eqn:ET6.
-  - cbn. unfold Top. splits; auto. rewrite F2; auto. unfold armed_ok, armed_okc. rewrite ET6. cbn. discriminate.
+  - cbn. unfold Top. splits; auto. unfold armed_ok, armed_okc. rewrite ET6. cbn. discriminate.
   - destruct (i_ta _ _ _ _ I6 d a) as (o & G & Eo & _); [rewrite ET6; left; auto|].
     assert (0 < d) by (eapply (i_pos _ _ _ _ I6); rewrite ET6; left; eauto).
     unfold deref. rewrite G. cbn [bind]. subst d. destruct (Z.ltb_spec 0 (o_exp o)); [|lia].
     destruct (reset_timerfd_spec st6 (o_exp o)) as (x & Ex & Lx).
     destruct (reset_timerfd st6 (o_exp o)) as [st7 e7]. cbn [fst] in Ex. subst st7. cbn.
-    unfold Top. splits; auto. cbn. rewrite F2; auto.
+    unfold Top. splits; auto.
     unfold armed_ok, armed_okc. cbn. rewrite ET6. cbn. intros d Hd. inversion Hd; subst. eauto.
 Qed.
 
-Lemma run_functors_good : forall fs st, Inv st -> DInv st (padds fs) ->
-  good (run_functors st fs) (fun r => Inv (fst r) /\ (armed_ok st -> armed_ok (fst r)) /\ frame st (fst r)).
+Lemma detq_frame : forall st st', frame st st' -> detq st' = detq st.
+Proof. intros st st' (_ & F2 & _ & _ & F5). unfold detq. rewrite F2, F5. reflexivity. Qed.
+
+Lemma run_functors_good : forall fs st, Inv st -> DInv st (padds fs ++ detq st) ->
+  good (run_functors st fs) (fun r => Inv (fst r) /\ DInv (fst r) (detq (fst r)) /\
+                                      (armed_ok st -> armed_ok (fst r)) /\ calling (fst r) = calling st).
 Proof.
-  induction fs as [|[a|a s] r IH]; intros st I D; cbn [run_functors].
-  - cbn. splits; auto. apply frame_refl.
-  - cbn [padds] in D. destruct D as [N Dt]. inversion N as [|x l NIa N']; subst.
+  induction fs as [|[a|a s|cs] r IH]; intros st I D; cbn [run_functors].
+  - cbn. splits; auto.
+  - cbn [padds app] in D. destruct D as [N Dt]. inversion N as [|x l NIa N']; subst.
     destruct (Dt a (or_introl eq_refl)) as [[o [G Po]] ND].
-    assert (D' : DInv st (padds r)) by (split; auto; intros b Hb; apply Dt; right; auto).
+    assert (D' : DInv st (padds r ++ detq st)) by (split; auto; intros b Hb; apply Dt; right; auto).
     pose proof (add_in_loop_good st a o _ I G ND Po D' NIa) as GA.
     destruct (add_in_loop st a) as [[st1 e1]| |]; cbn [bind good] in *; auto.
     destruct GA as (I1 & D1 & A1 & F1 & _). cbn [fst] in *.
-    specialize (IH st1 I1 D1).
+    rewrite <- (detq_frame _ _ F1) in D1. specialize (IH st1 I1 D1).
     destruct (run_functors st1 r) as [[st2 e2]| |]; cbn [bind good] in *; auto.
-    destruct IH as (I2 & A2 & F2). cbn [fst] in *. splits; auto. eapply frame_trans; eauto.
+    destruct IH as (I2 & D2 & A2 & C2). cbn [fst] in *. destruct F1 as (F1 & _). splits; auto. congruence.
   - cbn [padds] in D.
     pose proof (cancel_good st a s _ I D) as GC.
     destruct (cancel_in_loop st a s) as [st1| |]; cbn [bind good] in *; auto.
     destruct GC as (I1 & D1 & A1 & F1).
-    specialize (IH st1 I1 D1).
+    rewrite <- (detq_frame _ _ F1) in D1. specialize (IH st1 I1 D1).
     destruct (run_functors st1 r) as [[st2 e2]| |]; cbn [good] in *; auto.
-    destruct IH as (I2 & A2 & F2). cbn [fst] in *. splits; auto. eapply frame_trans; eauto.
+    destruct IH as (I2 & D2 & A2 & C2). cbn [fst] in *. destruct F1 as (F1 & _). splits; auto. congruence.
+  - cbn [padds] in D.
+    pose proof (cb_run_good cs st (padds r) I D) as GC.
+    destruct (cb_run st cs) as [[st1 e1]| |]; cbn [bind good] in *; auto.
+    destruct GC as (I1 & D1 & A1 & C1). cbn [fst] in *. specialize (IH st1 I1 D1).
+    destruct (run_functors st1 r) as [[st2 e2]| |]; cbn [bind good] in *; auto.
+    destruct IH as (I2 & D2 & A2 & C2). cbn [fst] in *. splits; auto. congruence.
 Qed.
 
 Lemma step_good : forall st o, Top st -> good (step st o) (fun r => Top (fst r)).
@@ -760,8 +806,8 @@ Proof.
   - apply fire_good; auto.
   - destruct T as (I & D & C & A).
     pose proof (run_functors_good (pending st) (set_pending st []) I D) as G.
-    eapply good_weaken; [exact G|]. intros r (I1 & A1 & (F1 & F2 & F3 & F4)). cbn in F1, F2.
-    unfold Top. splits; auto; [rewrite F2; cbn; split; [constructor|intros a []] | congruence].
+    eapply good_weaken; [exact G|]. intros r (I1 & D1 & A1 & C1). cbn in C1.
+    unfold Top. splits; auto. congruence.
 Qed.
 
 Lemma run_good : forall ops st, Top st -> good (run st ops) (fun r => Top (fst r)).
@@ -796,13 +842,16 @@ Qed.
 
 Lemma cb_step_ev : forall st c st' ev, cb_step st c = Ok (st', ev) -> Forall ev_ok ev.
 Proof.
-  intros st c st' ev H. destruct c as [d|w iv a|a s|w iv a|a s]; cbn [cb_step] in H.
+  intros st c st' ev H. destruct c as [d|w iv a|a s|w iv a|a s|w iv a|a|cs]; cbn [cb_step] in H.
   - destruct (d <? 0); inversion H; constructor.
   - destruct (alloc st w iv a) as [[st1 s]| |]; cbn [bind] in H; try discriminate.
     destruct (add_in_loop st1 a) as [[st2 e]| |] eqn:EA; cbn [bind] in H; try discriminate.
     inversion H; subst. apply Forall_app. split; [eapply add_in_loop_ev; eauto|repeat constructor].
   - destruct (cancel_in_loop st a s); cbn [bind] in H; try discriminate. inversion H; constructor.
   - destruct (alloc st w iv a) as [[st1 s]| |]; cbn [bind] in H; try discriminate. inversion H; repeat constructor.
+  - inversion H; constructor.
+  - destruct (alloc st w iv a) as [[st1 s]| |]; cbn [bind] in H; try discriminate. inversion H; repeat constructor.
+  - destruct (zmem a (inflight st)); inversion H; constructor.
   - inversion H; constructor.
 Qed.
 
@@ -849,12 +898,15 @@ Qed.
 
 Lemma run_functors_ev : forall fs st st' ev, run_functors st fs = Ok (st', ev) -> Forall ev_ok ev.
 Proof.
-  induction fs as [|[a|a s] r IH]; intros st st' ev H; cbn [run_functors] in H.
+  induction fs as [|[a|a s|cs] r IH]; intros st st' ev H; cbn [run_functors] in H.
   - inversion H; constructor.
   - destruct (add_in_loop st a) as [[st1 e1]| |] eqn:E1; cbn [bind] in H; try discriminate.
     destruct (run_functors st1 r) as [[st2 e2]| |] eqn:E2; cbn [bind] in H; try discriminate.
     inversion H; subst. apply Forall_app. split; [eapply add_in_loop_ev; eauto | eapply IH; eauto].
   - destruct (cancel_in_loop st a s) as [st1| |]; cbn [bind] in H; try discriminate. eapply IH; eauto.
+  - destruct (cb_run st cs) as [[st1 e1]| |] eqn:E1; cbn [bind] in H; try discriminate.
+    destruct (run_functors st1 r) as [[st2 e2]| |] eqn:E2; cbn [bind] in H; try discriminate.
+    inversion H; subst. apply Forall_app. split; [eapply cb_run_ev; eauto | eapply IH; eauto].
 Qed.
 
 Lemma run_ev : forall ops st st' ev, run st ops = Ok (st', ev) -> Forall ev_ok ev.
@@ -1014,7 +1066,7 @@ Qed.
 
 Lemma cb_step_gone : forall st c st' ev s, cb_step st c = Ok (st', ev) -> gone st s -> gone st' s /\ norun s ev.
 Proof.
-  intros st c st' ev s H G. destruct c as [d|w iv a|a s0|w iv a|a s0]; cbn [cb_step] in H.
+  intros st c st' ev s H G. destruct c as [d|w iv a|a s0|w iv a|a s0|w iv a|a|cs]; cbn [cb_step] in H.
   - destruct (d <? 0); inversion H; subst. split; [exact G | apply norun_nil].
   - destruct (alloc st w iv a) as [[st1 s1]| |] eqn:EA; cbn [bind] in H; try discriminate.
     destruct (add_in_loop st1 a) as [[st2 e]| |] eqn:EL; cbn [bind] in H; try discriminate.
@@ -1024,6 +1076,10 @@ Proof.
     inversion H; subst. split; [eapply cancel_gone; eauto | apply norun_nil].
   - destruct (alloc st w iv a) as [[st1 s1]| |] eqn:EA; cbn [bind] in H; try discriminate.
     inversion H; subst. split; [exact (alloc_gone _ _ _ _ _ _ _ EA G)|]. intros dl now t [HI|[]]. discriminate.
+  - inversion H; subst. split; [exact G | apply norun_nil].
+  - destruct (alloc st w iv a) as [[st1 s1]| |] eqn:EA; cbn [bind] in H; try discriminate.
+    inversion H; subst. split; [exact (alloc_gone _ _ _ _ _ _ _ EA G)|]. intros dl now t [HI|[]]. discriminate.
+  - destruct (zmem a (inflight st)); inversion H; subst. split; [exact G | apply norun_nil].
   - inversion H; subst. split; [exact G | apply norun_nil].
 Qed.
 
@@ -1098,7 +1154,7 @@ Qed.
 
 Lemma run_functors_gone : forall fs st st' ev s, run_functors st fs = Ok (st', ev) -> gone st s -> gone st' s /\ norun s ev.
 Proof.
-  induction fs as [|[a|a s0] r IH]; intros st st' ev s H G; cbn [run_functors] in H.
+  induction fs as [|[a|a s0|cs] r IH]; intros st st' ev s H G; cbn [run_functors] in H.
   - inversion H; subst. split; [exact G | apply norun_nil].
   - destruct (add_in_loop st a) as [[st1 e1]| |] eqn:E1; cbn [bind] in H; try discriminate.
     destruct (run_functors st1 r) as [[st2 e2]| |] eqn:E2; cbn [bind] in H; try discriminate.
@@ -1106,6 +1162,10 @@ Proof.
     split; auto. apply norun_app; auto.
   - destruct (cancel_in_loop st a s0) as [st1| |] eqn:E1; cbn [bind] in H; try discriminate.
     eapply IH; [exact H|]. eapply cancel_gone; eauto.
+  - destruct (cb_run st cs) as [[st1 e1]| |] eqn:E1; cbn [bind] in H; try discriminate.
+    destruct (run_functors st1 r) as [[st2 e2]| |] eqn:E2; cbn [bind] in H; try discriminate.
+    inversion H; subst. destruct (cb_run_gone _ _ _ _ s E1 G) as [G1 N1]. destruct (IH _ _ _ s E2 G1) as [G2 N2].
+    split; auto. apply norun_app; auto.
 Qed.
 
 Lemma run_gone : forall ops st st' ev s, run st ops = Ok (st', ev) -> gone st s -> gone st' s /\ norun s ev.
